@@ -34,7 +34,8 @@ def run(tier, prop="C04"):
                 combos.add((tag, e["e"], e["pos"], e["cls"]))
         for b, ev in bad:
             chk.violation("[%s] pointer position outside the %s Contract: %s" % (tag, prop, mc.pretty(ev)), mc.pretty(ev))
-        chk.sample(mc.pretty(events[5]))
+        if len(events) > 5:
+            chk.sample(mc.pretty(events[5]))
     # (b) registry histories
     m = sx.model(chk, wd, "R3", ["s1", "s2", "s3"], ["f1"], [], 1, [1], 2 if thorough else 1,
                  ["create", "destroy", "ptrrt", "xlate"], emit=True)
